@@ -3,6 +3,7 @@
   Model: PCV/Model/IPA.lean; lemmas: PCV/Proofs/IPA.lean.
 -/
 import PCV.Proofs.IPA
+import PCV.Proofs.IPABatch
 import PCV.Props.Examples
 
 set_option linter.unusedSectionVars false
@@ -44,6 +45,25 @@ theorem ipa_complete_key (ck : IPA.CK F) (k : Nat) (hk : ck.commKey.length = 2 ^
   (IPA.open_check_complete ck k hk polys comms sts
     (IPA.commit_spec ck rng polys draws comms sts rest hc) hnf z ξs ros rng' draws' π ξr ror dr ho).1
 
+/-- **IPA batch.** `batch_check` accepts the proofs of `batch_open` (the trait default: one `open`
+per point label in sorted order on one sponge) for every query set — several polynomials per
+point label, several labels sharing a point value, one polynomial at many points —, every list of
+verifier randomizers and all oracle outputs, given the true evaluation of every queried
+(polynomial, point).  Labels need not be distinct: prover and verifier both resolve a label to its
+last occurrence. -/
+theorem ipa_batch_complete (ck : IPA.CK F) (k : Nat) (hk : ck.commKey.length = 2 ^ k)
+    (polys : List (IPA.LPoly F)) (hnf : ∀ p ∈ polys, pnorm p.poly = p.poly)
+    (rng : Bool) (draws : List F) (comms : List (IPA.LComm F)) (sts : List (IPA.Rand F))
+    (rest : List F) (hc : IPA.commit ck polys rng draws = .ok (comms, sts, rest))
+    (qs : List (IPA.Query F)) (evals : List ((IPA.Label × F) × F))
+    (hev : IPA.TrueEvals polys comms sts evals (Marlin.groupQueries qs))
+    (ξs ros rs : List F) (rng' : Bool) (draws' : List F) (πs : List (IPA.Proof F))
+    (ξr ror dr : List F)
+    (ho : IPA.batchOpen ck polys comms sts qs ξs ros rng' draws' = .ok (πs, ξr, ror, dr)) :
+    IPA.batchCheck ck comms qs evals πs ξs ros rs = .ok true :=
+  IPA.batch_complete ck k hk polys comms sts (IPA.commit_spec ck rng polys draws comms sts rest hc)
+    hnf qs evals hev ξs ros rs rng' draws' πs ξr ror dr ho
+
 /-- **IPA, the folding invariant** behind completeness, for every power-of-two size: after the
 `k` rounds on `(c, 𝐳, G)` with non-zero challenges `us`,
 `⟨G,c⟩ + h′⟨c,𝐳⟩ + Σ(u⁻¹L + uR) = K·c_fin + h′·c_fin·z_fin` with `K = ⟨G, coeffs(h_us)⟩` and
@@ -76,5 +96,15 @@ example : IPA.check (⟨[3, 5, 7, 11], 13, 17, 7⟩ : IPA.CK K)
       [evalPoly [1, 2, 3] 6, evalPoly [4, 0, 0, 9] 6]
       ⟨[89, 67], [85, 95], 96, 5, some 34, some 50⟩ [2, 3, 4, 5, 6] [7, 8, 9, 10, 11]
     = .ok true := by decide +kernel
+
+example : IPA.batchOpen (⟨[3, 5], 13, 17, 3⟩ : IPA.CK K) [⟨[1], [4, 9], none, none⟩]
+    [⟨[1], ⟨57, none⟩, none⟩] [⟨0, none⟩] [([1], ([9], 6)), ([1], ([10], 7))]
+    [2, 3, 4, 5, 6, 7] [8, 9, 10, 4] false []
+    = .ok ([⟨[7], [83], 48, 10, none, none⟩, ⟨[26], [19], 23, 6, none, none⟩], [], [], []) := by
+  decide +kernel
+example : IPA.batchCheck (⟨[3, 5], 13, 17, 3⟩ : IPA.CK K) [⟨[1], ⟨57, none⟩, none⟩]
+    [([1], ([9], 6)), ([1], ([10], 7))] [(([1], 6), 58), (([1], 7), 67)]
+    [⟨[7], [83], 48, 10, none, none⟩, ⟨[26], [19], 23, 6, none, none⟩]
+    [2, 3, 4, 5, 6, 7] [8, 9, 10, 4] [5, 6] = .ok true := by decide +kernel
 
 end PCV.C01
